@@ -11,6 +11,12 @@ CHECKS = {
  'C02': dict(technique='symbolic execution of calcCoefficiants/updateSM/apply (LLVM IR): z3 reals for weight identities and polynomial reproduction, z3 IEEE-754 theory for bit-exact whole-cell shifts, (1+e) rounding enclosure for float weights',
              text='bounded symbolic verification: weight moment identities for every real f in [0,1) and orders 1-4; every float f for orders 1-2 (IEEE theory) and per-weight rounding enclosures for orders 3-4; whole-cell shifts bit-identical for all finite float data and every k the map represents (|k| beyond: shifted-or-zero); polynomial rows of degree < order reproduced at y+off for all coefficients',
              ref='4/C02'),
+ 'C03': dict(technique='symbolic execution of the RFKickMap/DriftMap constructors and the kick kernels from LLVM IR (uninterpreted tan/sin/asin), first-moment lemma per unit cell, then SMT algebra on the extracted one-step matrix',
+             text='bounded symbolic verification of the inductive step: RF field == tan(a)*(zero_bin - x) resp. the sinusoidal formula and drift field == slip polynomial for all machine parameters on grids shifted differently in q and p; a kick moves the first moment of any interior row by exactly -off (2-4 points); the resulting step matrix has det 1, |trace|<2, fixed sense and trace = 2cos(a) + O(a^4)',
+             ref='4/C03'),
+ 'C04': dict(technique='symbolic execution of the FokkerPlanckMap constructor and apply from LLVM IR with symbolic damping decrement; exact moment recurrences per unit cell decided by z3, convergence consequences by SMT algebra',
+             text='bounded symbolic verification: for every e1 in (0,1/4], all 4 Fokker-Planck types and both stencils the real operator maps (M0,M1,M2) by the exact recurrences (M0 kept, M1 damped by 1-e1, M2 -> (1-2e1)M2 + e1(2-d^2)M0 resp. +2e1 M0), linear in the data; hence geometric convergence to a start-independent limit within grid error of 1, monotone shrink/growth for damping/diffusion only',
+             ref='4/C04'),
  'C08': dict(technique='differential symbolic execution of the real LLVM IR (multi-bunch vs single-bunch objects) on native snapshots, z3 NRA unsat per bunch',
              text='bounded symbolic verification: for every data value of every bunch and every fractional displacement (integer parts fixed per row) the B-bunch kernels equal the single-bunch kernels cell by cell, for generic x/y kicks, both RF models, drift, Fokker-Planck (3/4-point) and identity, grids 6-9, 2-3 bunches, 1-4 interpolation points',
              ref='4/C08'),
